@@ -68,6 +68,12 @@ def mdp_specs(draw, flavour="discounted", min_states=1, max_states=5, max_action
         # state 0 is always a goal so that ranks are well founded
         if kinds[0] == "n":
             kinds[0] = draw(st.sampled_from(sorted(set(absorbing_kinds) - {"n"}) or ["abs"]))
+    if not proper and n >= 2 and draw(st.integers(0, 5)) == 0:
+        # a non-absorbing state all of whose actions are sure self-loops with non-zero rewards (which may cancel across
+        # actions: +1 and -1) - it is *not* absorbing, its value is r_max / (1 - gamma)
+        cand = [s for s in range(n) if kinds[s] == "n"]
+        if cand:
+            kinds[cand[draw(st.integers(0, len(cand) - 1))]] = "loop"
     trans = []
     absorbing = []
     for s in range(n):
@@ -80,6 +86,8 @@ def mdp_specs(draw, flavour="discounted", min_states=1, max_states=5, max_action
         for a in acts:
             if kind == "imp":
                 outs = [[s, draw(st.integers(1, 3)), 0]]
+            elif kind == "loop":
+                outs = [[s, draw(st.integers(1, 3)), draw(st.sampled_from([-1, -2, -1] if flavour == "negative" else [1, -1, 2, -2, 1, -1]))]]
             else:
                 k = draw(st.integers(1, min(max_out, n)))
                 nss = draw(st.lists(st.integers(0, n - 1), min_size=k, max_size=k, unique=True))
